@@ -3,7 +3,7 @@
 From Coq Require Extraction.
 From Coq Require Import ExtrOcamlBasic.
 From RainVerif Require Import Params.
-From RainVerif.model Require Import Bytes Crc Log LogScript Bloom FilterBlock Key Block Table TableSpec Version Lsm LsmSpec DbSpec LockOwner LockPhases Work TableFile Cache Pick Cursor Conc Codec Gc WalModel Recover Proto Faults.
+From RainVerif.model Require Import Bytes Crc Log LogScript Bloom FilterBlock Key Block Table TableSpec Version Lsm LsmSpec DbSpec LockOwner LockPhases Work TableFile Cache Pick Names Cursor Conc Codec Gc WalModel Recover Proto Faults.
 
 Extraction Language OCaml.
 
@@ -29,4 +29,5 @@ Extraction "../ocaml/model.ml"
   work_inv_dump
   read_block_at file_footer footer_encode update_at
   lru_run lru_new
-  size_compaction_level requires_size_compaction read_samples ss_init.
+  size_compaction_level requires_size_compaction read_samples ss_init
+  file_name parse_name.
